@@ -248,6 +248,12 @@ class Sym(object):
             return Sym(1, z3.RealVal(0))
         return Sym(z3.If(a.k == 0, 0, 1), z3.If(a.r >= 0, a.r, -a.r))
 
+    def __bool__(a):
+        # Python truthiness of a number: x != 0 (e.g. a cache test written `if not value:`)
+        if _is0(a.k):
+            return fork(a.r != 0)
+        return fork(z3.Or(kterm(a.k) != 0, a.r != 0))
+
     def __float__(a):
         raise HarnessError('float() of a symbolic value escaped the stub')
 
@@ -467,12 +473,16 @@ for _n in ('sqrt', 'exp', 'log', 'pow', 'fabs'):
 MATH = _MathShim()
 
 _PATCHED = {}     # module name -> {attr: (had, old)}
+PATCH_MINMAX = True
 STUBS = ['min -> ITE term (first wins on ties)', 'max -> ITE term (first wins on ties)',
          'float -> identity on symbolic values', 'math.sqrt/exp/log/pow -> uninterpreted functions']
 
 
-def patch_rtamt():
-    """Rebind min/max/float/math in every loaded rtamt.* module (no source change)."""
+def patch_rtamt(minmax=True):
+    """Rebind min/max/float/math in every loaded rtamt.* module (no source change).
+    minmax=False leaves Python's own min/max in place (they then fork on every comparison): the fork-mode twin."""
+    global PATCH_MINMAX
+    PATCH_MINMAX = minmax
     for name, m in list(sys.modules.items()):
         if m is None or not (name == 'rtamt' or name.startswith('rtamt.')):
             continue
@@ -480,7 +490,7 @@ def patch_rtamt():
             continue
         d = m.__dict__
         saved = {}
-        for attr, new in (('min', smin), ('max', smax), ('float', sfloat)):
+        for attr, new in ((('min', smin), ('max', smax)) if minmax else ()) + (('float', sfloat),):
             saved[attr] = (attr in d, d.get(attr))
             d[attr] = new
         if 'math' in d and d['math'] is _math:
@@ -799,7 +809,7 @@ def run_concrete(body, values, use_fractions=False):
             return 'raised', e, env
     finally:
         if was:
-            patch_rtamt()
+            patch_rtamt(PATCH_MINMAX)
         CTX = saved
 
 
